@@ -10,6 +10,7 @@ import TzVerif.Generated.Src
 import TzVerif.Model.TimeZone
 import TzVerif.Proofs.SrcEqCal
 import TzVerif.Proofs.SrcEqRule
+import TzVerif.Proofs.SrcEqZoneLoops
 
 namespace TzVerif.Proofs.SrcEq
 open TzVerif TzVerif.Model TzVerif.Gen
@@ -20,47 +21,171 @@ def CorrectionsI32 (ls : List LeapSecond) : Prop := ∀ l ∈ ls, I32 l.correcti
 
 theorem binary_search_transitions_eq (l : List Transition) (x : Int) :
     bsOfExcept (Src.binary_search_transitions l x) = binarySearch (l.map (·.unixLeapTime)) x := by
-  sorry
+  exact (binary_search_transitions_agree l x).bsOfExcept
 
 theorem binary_search_leap_seconds_eq (l : List LeapSecond) (x : Int) :
     bsOfExcept (Src.binary_search_leap_seconds l x) = binarySearch (l.map (·.unixLeapTime)) x := by
-  sorry
+  exact (binary_search_leap_seconds_agree l x).bsOfExcept
 
 /-- the forward leap conversion, loop with `break` and early `return` included -/
 theorem unix_time_to_unix_leap_time_eq (z : TimeZone) (u : Int) :
     Src.TimeZoneRef.unix_time_to_unix_leap_time z u = unixTimeToUnixLeapTime z.leapSeconds u := by
-  sorry
+  have h : Src.TimeZoneRef.unix_time_to_unix_leap_time z u
+      = leapOut (Src.loopR (Int.toNat ((z.leapSeconds.length : Int) + 1)) _ (u, (0 : Int))) := rfl
+  rw [h]
+  unfold unixTimeToUnixLeapTime
+  refine leap_loop u z.leapSeconds _ (fun e i => ?_) z.leapSeconds.length 0 u
+    (Int.toNat ((z.leapSeconds.length : Int) + 1)) (by omega) (by omega) (by omega)
+  · dsimp only
+    rw [checked_i64_eq]
+    by_cases h0 : i < (z.leapSeconds.length : Int)
+    · by_cases h1 : e < (Src.idx z.leapSeconds i).unixLeapTime
+      · simp only [h0, h1, decide_true, if_true]
+      · by_cases h2 : i64Min ≤ u + (Src.idx z.leapSeconds i).correction ∧ u + (Src.idx z.leapSeconds i).correction ≤ i64Max
+        · simp only [h0, h1, h2, and_self, decide_true, decide_false, if_true, if_false, Bool.false_eq_true]
+        · simp only [h0, h1, h2, decide_true, decide_false, if_true, if_false, Bool.false_eq_true]
+    · simp only [h0, decide_false, if_false, Bool.false_eq_true]
 
 theorem unix_leap_time_to_unix_time_eq (z : TimeZone) (u : Int) :
     Src.TimeZoneRef.unix_leap_time_to_unix_time z u = unixLeapTimeToUnixTime z.leapSeconds u := by
-  sorry
+  unfold Src.TimeZoneRef.unix_leap_time_to_unix_time unixLeapTimeToUnixTime
+  by_cases h0 : u = i64Min
+  · rw [if_pos h0, if_pos (by simp only [decide_eq_true_eq]; exact h0)]
+  · rw [if_neg h0, if_neg (by simp only [decide_eq_true_eq]; exact h0)]
+    have hA := binary_search_leap_seconds_agree z.leapSeconds (u - 1)
+    generalize Src.binary_search_leap_seconds z.leapSeconds (u - 1) = r at hA ⊢
+    generalize binarySearch (List.map (fun x => x.unixLeapTime) z.leapSeconds) (u - 1) = m at hA ⊢
+    rcases hA with ⟨k, rfl, rfl⟩ | ⟨k, rfl, rfl⟩ <;> dsimp only [BS.upper]
+    · rw [idx_pred_ite z.leapSeconds ((k : Int) + 1) (k + 1) rfl (·.correction) 0, checked_i64_eq]
+      generalize (if k + 1 > 0 then (z.leapSeconds.getD (k + 1 - 1) default).correction else 0) = c
+      by_cases h : i64Min ≤ u - c ∧ u - c ≤ i64Max
+      · rw [if_pos h, if_pos h]
+      · rw [if_neg h, if_neg h]
+    · rw [idx_pred_ite z.leapSeconds _ k rfl (·.correction) 0, checked_i64_eq]
+      generalize (if k > 0 then (z.leapSeconds.getD (k - 1) default).correction else 0) = c
+      by_cases h : i64Min ≤ u - c ∧ u - c ≤ i64Max
+      · rw [if_pos h, if_pos h]
+      · rw [if_neg h, if_neg h]
 
 theorem find_local_time_type_eq (z : TimeZone) (u : Int) :
     Src.TimeZoneRef.find_local_time_type z u = z.findLocalTimeType u := by
-  sorry
+  unfold Src.TimeZoneRef.find_local_time_type TimeZone.findLocalTimeType
+  rw [unix_time_to_unix_leap_time_eq]
+  cases z.transitions.getLast? with
+  | none =>
+    cases z.extraRule with
+    | none => rfl
+    | some rule => exact transition_rule_find_local_time_type_eq rule u
+  | some last =>
+    dsimp only
+    cases unixTimeToUnixLeapTime z.leapSeconds u with
+    | error e => rfl
+    | ok ult =>
+      dsimp only
+      by_cases h : ult ≥ last.unixLeapTime
+      · simp only [h, decide_true, if_true]
+        cases z.extraRule with
+        | none => rfl
+        | some rule => exact transition_rule_find_local_time_type_eq rule u
+      · simp only [h, decide_false, if_false, Bool.false_eq_true]
+        have hA := binary_search_transitions_agree z.transitions ult
+        generalize Src.binary_search_transitions z.transitions ult = r at hA ⊢
+        generalize binarySearch (List.map (fun x => x.unixLeapTime) z.transitions) ult = m at hA ⊢
+        rcases hA with ⟨k, rfl, rfl⟩ | ⟨k, rfl, rfl⟩ <;> dsimp only [BS.upper]
+        · rw [idx_pred_ite z.transitions ((k : Int) + 1) (k + 1) rfl (fun t => (t.localTimeTypeIndex : Int)) 0, idx_ite_nat]; rfl
+        · rw [idx_pred_ite z.transitions (k : Int) k rfl (fun t => (t.localTimeTypeIndex : Int)) 0, idx_ite_nat]; rfl
 
 theorem check_inputs_eq (z : TimeZone) (hc : CorrectionsI32 z.leapSeconds) :
     Src.TimeZoneRef.check_inputs z = z.checkInputs := by
-  sorry
+  unfold Src.TimeZoneRef.check_inputs TimeZone.checkInputs
+  dsimp only
+  by_cases h0 : z.localTimeTypes.length = 0
+  · have h0' : (z.localTimeTypes.length : Int) = 0 := by omega
+    rw [if_pos h0, if_pos (by simp only [decide_eq_true_eq]; exact h0')]
+  · have h0' : ¬ (z.localTimeTypes.length : Int) = 0 := by omega
+    rw [if_neg h0, if_neg (by simp only [decide_eq_true_eq]; exact h0')]
+    generalize hr1 : Src.loopR (Int.toNat ((z.transitions.length : Int) + 1)) _ _ = r1
+    have e1 : r1 = loopOfCheck z.transitions.length (checkTransitions z.localTimeTypes.length z.transitions) :=
+      hr1.symm.trans (transitions_loop z.transitions z.localTimeTypes.length _ (fun i => rfl) z.transitions.length 0
+        (Int.toNat ((z.transitions.length : Int) + 1)) (by omega) (by omega) (by omega))
+    subst e1
+    rcases checkTransitions z.localTimeTypes.length z.transitions with e | ⟨⟨⟩⟩
+    · rfl
+    · dsimp only [loopOfCheck]
+      refine ite_bnot_congr _ _ _ _ _ ?_ ?_
+      · rcases hL : z.leapSeconds with _ | ⟨l, t⟩
+        · rfl
+        · have hl : I32 l.correction := hc l (by rw [hL]; exact List.mem_cons_self)
+          have e0 : Src.idx (l :: t) 0 = l := rfl
+          rw [e0, sat_i32_natAbs _ hl]
+          rfl
+      · generalize hr2 : Src.loopR (Int.toNat ((z.leapSeconds.length : Int) + 1)) _ _ = r2
+        have e2 : r2 = loopOfCheck z.leapSeconds.length (checkLeapPairs z.leapSeconds) :=
+          hr2.symm.trans (leap_pairs_loop z.leapSeconds _ (fun i => by
+            rw [sat_i64_sub, sat_i32_sub, sat_i32_natAbs _ (satSubI32_range _ _)]
+            exact pairs_body_eq _ _ _ i _) z.leapSeconds.length 0
+            (Int.toNat ((z.leapSeconds.length : Int) + 1)) (by omega) (by omega) (by omega))
+        subst e2
+        rcases checkLeapPairs z.leapSeconds with e | ⟨⟨⟩⟩
+        · rfl
+        · dsimp only [loopOfCheck]
+          clear hr1 hr2
+          cases z.extraRule with
+          | none => cases z.transitions.getLast? <;> rfl
+          | some rule =>
+            cases z.transitions.getLast? with
+            | none => rfl
+            | some last =>
+              dsimp only
+              rw [unix_leap_time_to_unix_time_eq]
+              cases unixLeapTimeToUnixTime z.leapSeconds last.unixLeapTime with
+              | error e => rfl
+              | ok ut =>
+                dsimp only
+                rw [transition_rule_find_local_time_type_eq]
+                cases rule.findLocalTimeType ut with
+                | error e => rfl
+                | ok rt =>
+                  dsimp only
+                  rw [idx_nat, ltt_beq_eq]
+                  cases (z.localTimeTypes.getD last.localTimeTypeIndex default).equal rt <;> rfl
 
 theorem zone_new_eq (ts : List Transition) (tys : List LocalTimeType) (ls : List LeapSecond) (r : Option TransitionRule)
     (hc : CorrectionsI32 ls) : Src.TimeZoneRef.new ts tys ls r = TimeZone.new ts tys ls r := by
-  sorry
+  unfold Src.TimeZoneRef.new TimeZone.new Src.TimeZoneRef.new_unchecked
+  dsimp only
+  rw [check_inputs_eq _ hc]
+  cases TimeZone.checkInputs { transitions := ts, localTimeTypes := tys, leapSeconds := ls, extraRule := r } <;> rfl
 
 theorem dt_from_timespec_eq (u ns : Int) (z : TimeZone) : Src.DateTime.from_timespec u ns z = DateTime.fromTimespec u ns z := by
-  sorry
+  unfold Src.DateTime.from_timespec DateTime.fromTimespec
+  rw [find_local_time_type_eq]
+  cases z.findLocalTimeType u with
+  | error e => rfl
+  | ok l => exact dt_from_timespec_and_local_eq u ns l
 
 theorem dt_from_total_nanoseconds_and_local_eq (t : Int) (l : LocalTimeType) :
     Src.DateTime.from_total_nanoseconds_and_local t l = DateTime.fromTotalNanosecondsAndLocal t l := by
-  sorry
+  unfold Src.DateTime.from_total_nanoseconds_and_local DateTime.fromTotalNanosecondsAndLocal
+  rw [total_nanoseconds_to_timespec_eq]
+  cases totalNanosecondsToTimespec t with
+  | error e => rfl
+  | ok p => obtain ⟨s, n⟩ := p; exact dt_from_timespec_and_local_eq s n l
 
 theorem dt_from_total_nanoseconds_eq (t : Int) (z : TimeZone) : Src.DateTime.from_total_nanoseconds t z = DateTime.fromTotalNanoseconds t z := by
-  sorry
+  unfold Src.DateTime.from_total_nanoseconds DateTime.fromTotalNanoseconds
+  rw [total_nanoseconds_to_timespec_eq]
+  cases totalNanosecondsToTimespec t with
+  | error e => rfl
+  | ok p => obtain ⟨s, n⟩ := p; exact dt_from_timespec_eq s n z
 
 theorem dt_project_eq (d : DateTime) (z : TimeZone) : Src.DateTime.project d z = d.project z := by
-  sorry
+  unfold Src.DateTime.project DateTime.project
+  exact dt_from_timespec_eq _ _ z
 
 theorem utc_project_eq (c : UtcDateTime) (z : TimeZone) : Src.UtcDateTime.project c z = c.project z := by
-  sorry
+  unfold Src.UtcDateTime.project UtcDateTime.project
+  rw [utc_unix_time_eq]
+  exact dt_from_timespec_eq _ _ z
 
 end TzVerif.Proofs.SrcEq
